@@ -5,7 +5,7 @@ CLAIMED = {
     "C20": dict(
         text="Static analysis (clang AST + CFG dataflow) of Lattice and LatticePresets: validation of label/orbital/spin dominates storage for every factor, "
              "no lattice write can be followed by a rejection (exception summaries discharged at call sites), map look-ups dereferenced only on the found edge, "
-             "size guards of presets are not vacuous, preset argument checks dominate construction, storage by order and deep copy; (R7) the extracted bodies of addSite / getSite evaluated on add/look-up histories over two labels (labels are only compared): look-up returns the site added last under the label, unknown labels fail. All CFG paths, both build configurations.",
+             "size guards of presets are not vacuous, preset argument checks dominate construction, storage by order and deep copy; (R7) the extracted bodies of addSite / getSite evaluated on add/look-up histories over two labels (labels are only compared): look-up returns the site added last under the label, unknown labels fail. All CFG paths, both build configurations. User-written copy constructors of the lattice classes take every member from the source.",
         note="Necessary structural conditions; trusts clang's CFG, the skeleton extraction, std::map semantics. Does not decide that stored terms give the intended matrix (C04) nor allocation-failure safety.",
         technique="CFG must-dataflow of branch facts + dominance + exception summaries with call-site discharge (custom libTooling extractor, Python rule engine)",
         ref="DESIGN.md §3 C20"),
@@ -19,7 +19,7 @@ CLAIMED = {
     "C17": dict(
         text="Static analysis for the three UB classes the anchored mechanisms can exhibit: (R1) typestate of every Eigen sparse InnerIterator in the library (accessed only after its operator bool "
              "was tested since construction / last ++, with per-return-value summaries for functions taking iterators by reference); (R2) first/last-element access or address of a possibly empty "
-             "sequence, and every pointer handed to an MPI collective; (R3) coherence between a bounds guard and the exclusive extent of what it protects; (R4) ownership: storage freed by a destructor is not shared with a copy of the object — a user-provided copy constructor must not take over the original's pointers (member-wise or element-wise), a class with a compiler-generated copy constructor and a freeing destructor must not be copied anywhere in the analysed code; (R5) no container element erased through the iterator the loop header advances; (R6) IndexClassification::prepare leaves no slot of the index table unwritten and writes none past its extent (the slots are dereferenced right afterwards; rules C18-R1/R2 re-evaluated here). All CFG paths, both build configurations.",
+             "sequence, and every pointer handed to an MPI collective; (R3) coherence between a bounds guard and the exclusive extent of what it protects; (R4) ownership: storage freed by a destructor is not shared with a copy of the object — a user-provided copy constructor must not take over the original's pointers (member-wise or element-wise), a class with a compiler-generated copy constructor and a freeing destructor must not be copied anywhere in the analysed code; (R5) no container element erased through the iterator the loop header advances; (R6) IndexClassification::prepare leaves no slot of the index table unwritten and writes none past its extent (the slots are dereferenced right afterwards; rules C18-R1/R2 re-evaluated here). All CFG paths, both build configurations. (R8) every find() result that is dereferenced, library-wide, is dereferenced on the found edge or under a positive count (five look-ups listed as assumed with the rule that establishes their invariant); (R7) serialize() of every type sent between ranks mentions every data member.",
         note="Not a proof of absence of UB: arithmetic overflow, use before prepare/compute, pointer lifetimes and UB outside these mechanisms are not decided. Trusts Eigen/libstdc++ semantics; one class-invariant assumption listed in checks/c17.py.",
         technique="typestate must-dataflow over clang CFG with interprocedural summaries + guard/extent entailment (difference-bound closure)",
         ref="DESIGN.md §3 C17"),
@@ -27,7 +27,7 @@ CLAIMED = {
         text="Static SPMD analysis of every library function that has a communicator in scope: (R1) all collectives / point-to-point calls use the given communicator or a split of it (no world communicator); "
              "(R2) the two arms of every rank-dependent branch issue the same collective sequence (operation, communicator, payload, count after local resize, root under the branch equality), loops around collectives "
              "are rank-invariant, message-driven dispatch loops are collective-free; (R3) tables reduced to the root of a sub-communicator are published from that root; (R4) fields written by a distributed part "
-             "computation (transitive effect analysis) are all transmitted / set on the other ranks; (R5) the OpenMP parallel-for body writes only its own slot and calls only const, side-effect-free code; (R6) MPI buffer extents.",
+             "computation (transitive effect analysis) are all transmitted / set on the other ranks; (R5) the OpenMP parallel-for body writes only its own slot and calls only const, side-effect-free code; (R6) MPI buffer extents. Also (R4): serialize() of every type sent between ranks transmits every data member; (R7) the worker pool covers exactly the ranks that run the worker loop, decided path by path.",
         note="Quantifies over all ranks and both build configurations, but NOT over message schedules: termination of the dispatcher and rounding-level equality of results are not decided. Trusts Boost.MPI semantics (split keeps world-rank order; "
              "serialised broadcasts resize the receiver) and replication of the containers iterated around collectives.",
         technique="SPMD collective matching + rank-taint + effect/sync-set agreement over clang AST/CFG (custom libTooling extractor, Python engines)",
@@ -35,7 +35,7 @@ CLAIMED = {
     "C13": dict(
         text="Static analysis of IndexContainer4 / TwoParticleGFContainer: the constant tables permutations4 (24 distinct permutations, sign = parity) are evaluated from their initialisers; every alias inserted by set() "
              "carries the table entry whose permutation equals the permutation applied to the index quadruple and whose sign is its parity, only when the exchanged indices differ; ElementWithPermFreq::operator() "
-             "evaluates (n1,n2,n3,n1+n2-n3)[perm] times sign; every mutator keeps ElementsMap and NonTrivialElements paired (clear both, insert the stored element into both); bulk calls iterate their map completely.",
+             "evaluates (n1,n2,n3,n1+n2-n3)[perm] times sign; every mutator keeps ElementsMap and NonTrivialElements paired (clear both, insert the stored element into both); bulk calls iterate their map completely. Also: (R6) the entry handed back by set()/operator() is the one stored under the requested quadruple (key-level, with a fall-back that interprets set() and compares the identity of the returned entry; look-up results dereferenced on the found edge); (R8) IndexCombination4::operator< is a strict total order consistent with ==/!= (evaluated on all pairs over {0,1,2}^4); the alias evaluation is decided for all 24 permutations x 2 signs.",
         note="Holds for every call history because the rules quantify over all paths of every mutator. Value-level equality with a directly constructed TwoParticleGF additionally needs C02 and is not decided here.",
         technique="constant-table evaluation + key-permutation matching + paired-state effect rule over clang AST/CFG (templates analysed through explicit instantiation)",
         ref="DESIGN.md §3 C13"),
@@ -43,7 +43,7 @@ CLAIMED = {
         text="Static analysis of the symmetry analysis: (R1) on every CFG path through the classification loop each Fock state gets exactly one StateBlockIndex entry and one StatesContainer entry with the same block, new blocks "
              "are registered in both maps before the counter advances; (R2) (block, position) addresses round-trip; (R3) an integral of motion is stored only after it commuted with H and with every n_i (full loop, failing edge "
              "returns false); (R4) every throw reachable from Symmetrizer::compute / StatesClassification::compute is excluded at its call site (exception summaries, parameter substitution, entailment); (R5) the three "
-             "FieldOperator::prepare siblings build parts and block maps identically; (R6) blocks are keyed by QuantumNumbers whose identity is a hash: it is recomputed from the whole ordered vector after every change of the numbers, and <, ==, != compare the hashes of the two objects.",
+             "FieldOperator::prepare siblings build parts and block maps identically; (R6) blocks are keyed by QuantumNumbers whose identity is a hash: it is recomputed from the whole ordered vector after every change of the numbers, and <, ==, != compare the hashes of the two objects. Also: BlockNumber::isCorrect is number >= 0, and the guard of part creation is evaluated for the image-block values -1, 0, 1, 5 on every path (block 0 is an ordinary block); an element read numbers[pos] is not a recomputation of the hash from the whole vector.",
         note="Necessary conditions only: that accepted integrals of motion make H block diagonal and operators single-target is a value-level fact and is not decided; two hazards (mapsTo first-state rule, hash-compared quantum numbers) are documented, not armed. Virtual calls summarised through the static callee.",
         technique="CFG path enumeration with pairing rule + exception summaries discharged by branch-fact entailment + sibling-structure comparison",
         ref="DESIGN.md §3 C07"),
@@ -51,7 +51,7 @@ CLAIMED = {
         text="Structural necessary conditions of the dispatch protocol, decided on all CFG paths: an order is send(Work, job) + DispatchMap[job]=worker + irecv(worker, Pending) in that worker's slot, one job and one worker popped per order "
              "under both stacks non-empty; the worker re-posts its receive after every completed one, cancels it iff Finish, reports completion with send(boss, Pending) and resets its state, and its members are initialised before the "
              "receive captures them; Finish is sent only when no job is queued and all workers are idle, once per worker; completed workers are re-queued; root/non-root arms disseminating the job map match; the dispatch loop is "
-             "collective-free; the std::sort comparator is strict; (R7) MPIMaster::is_finished, evaluated from its extracted body on every pattern of the per-worker `Finish sent` flags (pools of 1..3 workers, stacks empty and non-empty), is true exactly when Finish went to every worker.",
+             "collective-free; the std::sort comparator is strict; (R7) MPIMaster::is_finished, evaluated from its extracted body on every pattern of the per-worker `Finish sent` flags (pools of 1..3 workers, stacks empty and non-empty), is true exactly when Finish went to every worker. Also: MPIMaster::swap exchanges every member the delegating constructors do not initialise; fill_stack_ is evaluated on small pools (every task and worker once, WorkerIndices = position in the pool); every call of check_workers reaches the Finish decision (no early return before it).",
         note="The property itself (exactly-once and termination for every interleaving and across rounds) quantifies over schedules and is NOT decided: that needs model checking of the protocol, a different technique family. Trusts Boost.MPI request semantics.",
         technique="pairing / dominance / typestate rules over clang AST+CFG with branch-fact dataflow; SPMD arm matching",
         ref="DESIGN.md §3 C16"),
@@ -59,14 +59,14 @@ CLAIMED = {
         text="Static formula conformance, typed by index space: the Term handed to TermList::add_term in GreensFunctionPart::compute has Residue == <o|c|i><i|c+|o>(w_outer(o)+w_inner(i)) and Pole == E_inner(i)-E_outer(o), "
              "where o is the common outer index of a row-major iterator over c and a column-major iterator over c+, i their common inner index (sympy normal forms over resolved program entities, both build configurations); "
              "Term(z) == R/(z-P); GreensFunction::prepare builds each part from the blocks that the two bimap views connect, under the full stripe test; merge walks advance only the smaller side; the fermionic grid is "
-             "i*pi*(2n+1)/beta; TermList merges like poles and drops negligible sums; tolerances <= 1e-8; GFContainer builds element (i,j) from c_i and c+_j and returns it undecorated.",
+             "i*pi*(2n+1)/beta; TermList merges like poles and drops negligible sums; tolerances <= 1e-8; GFContainer builds element (i,j) from c_i and c+_j and returns it undecorated. Also: copies keep their Status (copy constructors copy the ComputableObject base together with the parts), the container key IndexCombination2 is a strict total order consistent with ==/!= (comparator bodies evaluated on all pairs of a small domain), look-up results of the container are dereferenced on the found edge, no value is returned before the sum over the parts was taken, and a per-item filter of the Lehmann loop must make the skipped residue negligible.",
         note="The Lehmann representation itself is taken from the documentation, not re-derived; numerical accuracy and Eigen's kernels are trusted. Necessary conditions only.",
         technique="expression skeleton -> sympy normal form with atoms resolved to program entities (index-space typing) + CFG branch-fact dataflow",
         ref="DESIGN.md §3 C01"),
     "C14": dict(
         text="Static formula conformance for the bosonic Lehmann sum: Residue == a_oi*b_io*(w_outer(o)-w_inner(i)), Pole == E_inner(i)-E_outer(o) typed by index space; poles with |Pole| < ReduceResonanceTolerance are "
              "collected as ZeroPoleWeight += a*b*w_outer(o) (complementary split); Term(z) == -R/(z-P); both tau branches equal R e^{-tau P}/(1-e^{-beta P}) with non-positive exp arguments; part value == Terms(z) + [|z|<eps] Z0*beta, "
-             "of_tau == Terms + Z0; the total sums all parts and subtracts <A><B>*beta only under the flag and only at W=0 (in tau: <A><B>); bosonic grid 2n*i*pi/beta; stripe binding and walks as for G; the three subtractDisconnected overloads agree.",
+             "of_tau == Terms + Z0; the total sums all parts and subtracts <A><B>*beta only under the flag and only at W=0 (in tau: <A><B>); bosonic grid 2n*i*pi/beta; stripe binding and walks as for G; the three subtractDisconnected overloads agree. Also: no value is returned before the disconnected part was decided; outer states may be skipped only under a condition that makes the residue a*b*(w_o - w_i) negligible; the look-up form of prepare() (find by key) must still test that B maps back to A's starting block; copies keep their Status.",
         note="The Lehmann representation is taken from the documentation; the threshold semantics for nearly degenerate levels (runtime comparison) and numerical accuracy are not decided.",
         technique="expression skeleton -> sympy normal form with index-space typed atoms + sign-domain evaluation of exp arguments + CFG branch facts",
         ref="DESIGN.md §3 C14"),
@@ -87,7 +87,7 @@ CLAIMED = {
     "C19": dict(
         text="Structural clauses of truncation, on all CFG paths: at the part-creation sites of G, the susceptibility and the ensemble average every path through one iteration of the stripe loop that skips the part has tested isRetained false for ALL blocks whose density-matrix parts the part uses, and the stripe loop is not left early under a retention test; "
              "for the two-particle function the body of the stripe loop is evaluated for all 16 retention patterns of a matching stripe (booleans only): the part is created iff some used block is retained; DensityMatrixPart::truncate is evaluated on every weight vector of up to 3 states below / at / above the tolerance and both prior flag values: "
-             "retained whenever some weight exceeds the tolerance; truncateBlocks visits every block; isRetained(b) reads block b.",
+             "retained whenever some weight exceeds the tolerance; truncateBlocks visits every block; isRetained(b) reads block b. truncateBlocks reaches the loop over the blocks for every tolerance (no early return: truncate() also re-evaluates the flag).",
         note="The eps-proportional error bound (e.g. 2*eps*dim/|Im z|) is numeric and is NOT decided.",
         technique="path enumeration with branch facts (guard-set vs use-set per skipping path) + exhaustive evaluation of the extracted guard / flag code over its finite truth tables; loop-shape rules",
         ref="DESIGN.md §3 C19"),
@@ -103,7 +103,7 @@ CLAIMED = {
              "(Ej-Ei, Ek-Ej, El-Ek) with the right flags; both term classes evaluate to the documented rational forms incl. the delta branch decided on z1+z2-P1-P2 resp. z2+z3-P2-P3; in TwoParticleGFPart::compute the matrix element is "
              "O1(1,2)O2(2,3)O3(3,4)CX4(4,1)*sign and energies/weights of states 1..4 come from their own blocks (index-space typing of four sparse iterators, reaching-definition inlining); permutations3 is the six permutations with parity; "
              "the part is evaluated at (z1,z2,-z3)[perm]; prepare selects operators by perm[k] and closes the block chain; the frequency-table path accumulates exactly the call the on-demand path sums, compute before evaluation before purge; "
-             "merging of like terms (operator+=) averages the poles with the weights held before the merge and adds weights and coefficients (decided by evaluating the extracted operator+= on two symbolic terms, however the arithmetic is written); tolerances set on the container / function reach the parts under their own names; prepare/compute are idempotent under their status guards.",
+             "merging of like terms (operator+=) averages the poles with the weights held before the merge and adds weights and coefficients (decided by evaluating the extracted operator+= on two symbolic terms, however the arithmetic is written); tolerances set on the container / function reach the parts under their own names; prepare/compute are idempotent under their status guards. Also: (R8) a weakened status guard requires every accumulating part to reset its term lists (interprocedural); (R9) default tolerances equal the documented ones at container, function and part level and the term lists merge within 1e-8 / drop below 1e-16; (R10) the term comparators are strict orders whose equivalence is `same flag, all poles equal within the tolerance` (bodies evaluated on a grid of pole triples); add_term calls are followed through helpers and closures.",
         note="Equality with the triple Fourier integral and behaviour for numerically near-degenerate levels (runtime resonance decision) are not decided. The multi-term table is transcribed from the header documentation.",
         technique="sympy normal forms over index-space typed atoms, symbolic environment (reaching definitions), constant-table evaluation, switch/loop structure rules",
         ref="DESIGN.md §3 C02"),
@@ -111,7 +111,7 @@ CLAIMED = {
         text="Static structure of the eigenbasis field operators in both build configurations: FieldOperatorPart::compute fills LeftMat(n,k) = conj(U_to(l,n)) (conj present iff complex build) and RightMat(k,m) = sign*U_from(k,m) with l the inner "
              "position of the image O|K>, k of K, over all eigenstates, stores (LeftMat*RightMat).sparseView in both storage orders with pruning tolerance <= 1e-8, HFrom/HTo bound correctly; the container shortcut assigns to the c part "
              "whose right block is the left block of the c+ entry the ADJOINT (not transpose) of the c+ part's other-major matrix and sets both statuses after computing c+; index-space consistency (eigen vs Fock) wherever eigenvectors are read; "
-             "CreationOperator/AnnihilationOperator::prepare create exactly one part for every right block whose image block exists (guarded by isCorrect() and nothing else); (R5) look-ups of a part by its left / right block (block number or quantum numbers, incl. the bimap views) use the map of their own side.",
+             "CreationOperator/AnnihilationOperator::prepare create exactly one part for every right block whose image block exists (guarded by isCorrect() and nothing else); (R5) look-ups of a part by its left / right block (block number or quantum numbers, incl. the bimap views) use the map of their own side. Also: (R7) no `already computed` flag of the operator container survives a later change of the operator maps; the creation guard `image exists` is evaluated over block values (shared with C07-R5).",
         note="That the back-transformation gives the Jordan-Wigner matrix and that the CAR hold when assembled over blocks are value-level statements and are not decided; degenerate eigenvectors are Eigen's business.",
         technique="sympy comparison of element formulas per build configuration + key matching of the adjoint shortcut + index-space role typing",
         ref="DESIGN.md §3 C10"),
@@ -127,7 +127,7 @@ CLAIMED = {
         text="Structural necessary conditions of the symbolic algebra, on all CFG paths: in normalize_and_insert every transposition of neighbours flips the sign exactly once under prev > cur, the contraction (under prev == flip(cur)) is emitted "
              "before the swap with the unflipped coefficient and the monomial minus positions n-1,n, equal neighbours annihilate the monomial; every in-place coefficient accumulation is followed by the near-zero erasure; += and -= differ only "
              "in sign; actRight applies factors right to left with the Pauli test before the bit write and the Jordan-Wigner sign over occupied modes in [0,ind); commutator/anticommutator/commutes are AB-BA, AB+BA, AB==BA; the N and S_z "
-             "shortcuts count exactly the modes their polynomial forms are built from; equality compares whole monomials (size before three-iterator std::equal).",
+             "shortcuts count exactly the modes their polynomial forms are built from; equality compares whole monomials (size before three-iterator std::equal). Also: the monomial receiving a contraction is fresh for every contraction; the Pauli test is decided path by path over (creates/annihilates) x (occupied/empty); the accumulated sign is what is returned; commutes() is judged on all its returns (a fast path that answers without forming the products is undecided, not accepted).",
         note="That the recursive bubble sort normal-orders every polynomial correctly (associativity, CAR, agreement with Jordan-Wigner matrices) needs an inductive proof and is NOT decided. Two genuine defects found by R5/R6 were repaired (D13, D14).",
         technique="pairing/ordering rules over clang AST+CFG with branch facts, sibling-structure comparison, typed lint for prefix equality",
         ref="DESIGN.md §3 C05"),
@@ -136,7 +136,7 @@ CLAIMED = {
              "(incl. the documented degenerate/invalid cases); (R2) each of the 11 LatticePresets::add* functions: the emission structure (loops, guards, factory, argument tuple, coefficient) equals the reviewed reference records, and the "
              "extracted summary expanded on bounded layouts (<= 3 orbitals x <= 3 spins, same-site and two-site, amplitudes symbolic or zero) equals the documented operator; (R3) addHopping emits Hopping(1,2,t) and Hopping(2,1,conj t) "
              "(t in the real configuration), all layouts; (R4) TermStorage keeps a full copy under the term's order and IndexHamiltonian::prepare turns every stored term of every order into Value * product of its factors in order, checked on "
-             "480+ user terms of 2, 4 and 6 operators incl. coinciding indices; (R5) on the expanded summaries H = H^+, [H_Kanamori(U'=U-2J), S+-] = 0, [H_SS, S+-] = 0.",
+             "480+ user terms of 2, 4 and 6 operators incl. coinciding indices; (R5) on the expanded summaries H = H^+, [H_Kanamori(U'=U-2J), S+-] = 0, [H_SS, S+-] = 0. Also: the constructors of Lattice::Term (full and copy) carry every argument into the member of the same role, and the storage keeps its own copy of every term (rule C20-R6 re-evaluated as C04-R6).",
         note="R2/R4/R5 interpret the *extracted summaries* of small loop nests with an independent fermion algebra; pomerol itself is never compiled or run. The for-all-layouts claim of R2 rests on structural identity with the reviewed records; "
              "where a preset is restructured the verdict is bounded to the expanded layouts. The Fock-space matrix of the polynomial is C05/C03. Two genuine defects repaired (D12 documentation, D15).",
         technique="summary extraction over clang AST (custom libTooling extractor) + abstract interpretation of the summaries over a small value domain (symbolic amplitudes) + exact polynomial comparison (sympy) against the documented operators",
